@@ -20,6 +20,11 @@ type connHooks struct {
 	ClientEE []byte
 	GotEE    bool
 	mu       sync.Mutex
+	// standing flight modifications used by C33/C34
+	addHRRCookie []byte
+	compressCert bool
+	compressAlg  uint16
+	addALPS      bool
 }
 
 var hookReg sync.Map // *tls.Conn -> *connHooks
